@@ -625,6 +625,32 @@ def job_trajectories(item):
                 out["refusals"].append({"id": pid, **polar_iface.exc_info(e)})
                 break
             used = list(script[:pos[0]])
+            # several samples in one call / several calls in one process: every run owns its states.  The same script is
+            # replayed with two samples; the first run of that call must be the run just obtained, and the run just obtained
+            # must not change while later samples are drawn (no state shared between runs or calls)
+            if n < 6:
+                frozen = [{str(k_): float(v_) for k_, v_ in st_.items()} for st_ in res]
+                keep_script, keep_log, keep_pos, keep_cont = list(script), list(log), pos[0], cont_pos[0]
+                pos[0] = 0
+                cont_pos[0] = 0
+                try:
+                    two = Simulator(K).simulate(program, [], 2)
+                    again = [{str(k_): float(v_) for k_, v_ in st_.items()} for st_ in two[0]]
+                    now = [{str(k_): float(v_) for k_, v_ in st_.items()} for st_ in res]
+                    out["checked"] += 2
+                    if again != frozen or now != frozen:
+                        which = "the first of two samples differs from the single sample drawn with the same random choices" if again != frozen else \
+                            "a finished run changed while later samples were drawn"
+                        out["records"].append({"kind": "violation", "key": f"run-isolation|{pid}", "tag": pid,
+                                               "what": f"simulation of {pid} with scripted choices {used}: {which} (states {frozen[:2]} vs {(again if again != frozen else now)[:2]})",
+                                               "replay": {"text": text, "script": used}})
+                        break
+                except Exception as e:  # noqa
+                    out["records"].append({"kind": "inconclusive", "tag": pid, "why": f"two-sample run: {type(e).__name__} {e}"[:120]})
+                finally:
+                    script[:] = keep_script
+                    log[:] = keep_log
+                    pos[0], cont_pos[0] = keep_pos, keep_cont
             try:
                 want = ref_run(used)
             except (Unsupported, ZeroDivisionError, KeyError, IndexError) as e:
